@@ -12,9 +12,9 @@ Mirrors, definition by definition,
 * `fcppt/cyclic_iterator_impl.hpp`      : `advance` (C++ truncating `%`), `increment`, `decrement`, `distance_to`
 * `fcppt/container/grid/spiral_iterator_impl.hpp`, `spiral_range_impl.hpp`
 * `fcppt/container/grid/moore_neighbors.hpp`, `neumann_neighbors.hpp`
-* `fcppt/iterator/range_impl.hpp`, `iterator/adapt_range.hpp`, `iterator/make_range.hpp`
-* `fcppt/range/size.hpp`                : `to_unsigned(std::distance(begin, end))`
-* `fcppt/math/int_range_count.hpp`      : the static list `0 .. Count-1`
+* `fcppt/iterator/range_impl.hpp`, `iterator/adapt_range.hpp`, `iterator/make_range.hpp`, `iterator/range_comparison.hpp`
+* `fcppt/range/size.hpp`                : `to_unsigned(std::distance(begin, end))`; `range/empty.hpp`, `range/singular.hpp`, `range/from_pair.hpp`
+* `fcppt/math/int_range_count.hpp`, `math/int_range.hpp` (`mpl/list/interval.hpp`) : the static lists `0 .. Count-1`, `Start .. End-1`
 * `fcppt/iterator/base_impl.hpp`        : the loop `for (it = begin(); it != end(); ++it) *it` that every range-for performs
                                           (`operator!=` = `!equal`, `operator++` = `increment`, `operator*` = `dereference`),
                                           `operator+`/`+=`/`-=`/`-`/`[]` in terms of `advance`
@@ -107,6 +107,36 @@ def rangeSize (diffTy : IntTy) (n : Nat) : M Int :=
   if diffTy.trapping && decide (diffTy.hi < (n : Int)) then .error .signedOverflow
   else .ok (diffTy.toUnsigned.wrap (diffTy.wrap n))
 
+/-! ## `int_iterator` / `enum_::iterator` used directly, and the operations every fcppt iterator inherits from
+`iterator::base` (`base_impl.hpp`): `operator==` = `equal`, `operator!=` = `!(a == b)`, `operator++(int)` =
+`derived temp{get()}; ++*this; return temp;`, `swap` = `std::swap(get(), other.get())`. -/
+
+/-- `int_iterator::equal` / `enum_::iterator::equal`: `value_ == other.value_` -/
+def IntIter.equal (a b : Int) : Bool := decide (a = b)
+/-- `iterator::base::operator!=` -/
+def IntIter.notEqual (a b : Int) : Bool := !IntIter.equal a b
+/-- `it++`: (the returned copy, the iterator afterwards) -/
+def IntIter.postIncr (t : IntTy) (v : Int) : M (Int × Int) :=
+  match incr t v with
+  | .ok v' => .ok (v, v')
+  | .error e => .error e
+/-- `a.swap(b)` / `fcppt::iterator::swap(a, b)`: `std::swap` of the two derived objects -/
+def swapPair {α : Type} (p : α × α) : α × α := (p.2, p.1)
+
+/-- `fcppt::range::empty(r)`: `r.begin() == r.end()` -/
+def IntRange.empty (r : IntRange) : Bool := IntIter.equal r.begin_ r.end_
+
+/-- `fcppt::range::singular(r)`: `!empty(r) && std::next(r.begin()) == r.end()` (`&&` short-circuits: no increment of an empty range) -/
+def IntRange.singular (t : IntTy) (r : IntRange) : M Bool :=
+  if r.empty then .ok false
+  else match incr t r.begin_ with
+    | .ok v => .ok (IntIter.equal v r.end_)
+    | .error e => .error e
+
+/-- an `iterator::range` whose iterators are `int_iterator`s (`iterator::make_range(int_iterator(b), int_iterator(e))`):
+the same loop as `int_range`'s, but there is **no clamp** -/
+def intIterRange (t : IntTy) (b e : Int) (fuel : Nat) : M (List Int) := intLoop t e fuel b
+
 /-! ## enum ranges.  An enum is its number of enumerators `n` and the width `w` of its `size_type`
 (`std::make_unsigned_t<std::underlying_type_t<Enum>>`); an enumerator is its value. -/
 
@@ -128,6 +158,14 @@ def makeRange (w n : Nat) : EnumRange := makeRangeStart w n 0
 def EnumRange.elems (w : Nat) (r : EnumRange) (fuel : Nat) : M (List Int) := intLoop (sizeTy w) r.end_ fuel r.begin_
 /-- `size()`: `end_ - begin_` returned as `size_type` -/
 def EnumRange.size (w : Nat) (r : EnumRange) : Int := (sizeTy w).wrap (r.end_ - r.begin_)
+
+/-- `range::empty` / `range::singular` of an enum range (the iterator's `++` is the unsigned `size_type`'s) -/
+def EnumRange.empty (r : EnumRange) : Bool := IntIter.equal r.begin_ r.end_
+def EnumRange.singular (w : Nat) (r : EnumRange) : M Bool :=
+  if r.empty then .ok false
+  else match incr (sizeTy w) r.begin_ with
+    | .ok v => .ok (IntIter.equal v r.end_)
+    | .error e => .error e
 
 /-! ## cyclic_iterator.  Container iterators are positions (indices into the container). -/
 
@@ -158,17 +196,56 @@ def Cyc.advance (c : Cyc) (n : Int) : M Cyc :=
 /-- `distance_to(other)` = `std::distance(it_, other.it_)` -/
 def Cyc.distanceTo (c o : Cyc) : Int := o.it - c.it
 
-/-- a history of iterator operations: `++it`, `--it`, `it += n` (`it -= n` is `it += -n`, see iterator/base_impl.hpp) -/
+/-- `equal(other)`: `it_ == other.it_` — the boundaries are **not** compared -/
+def Cyc.equal (c o : Cyc) : Bool := decide (c.it = o.it)
+/-- `iterator::base::operator-(a, b)` = `b.distance_to(a)` -/
+def Cyc.sub (a b : Cyc) : Int := b.distanceTo a
+/-- `operator<(l, r)` = `(r - l) > 0` -/
+def Cyc.lt (l r : Cyc) : Bool := decide (0 < Cyc.sub r l)
+/-- `operator>(l, r)` = `r < l` -/
+def Cyc.gt (l r : Cyc) : Bool := Cyc.lt r l
+/-- `operator<=(l, r)` = `!(l > r)` -/
+def Cyc.le (l r : Cyc) : Bool := !Cyc.gt l r
+/-- `operator>=(l, r)` = `!(l < r)` -/
+def Cyc.ge (l r : Cyc) : Bool := !Cyc.lt l r
+
+/-- `cyclic_iterator()`: `it_{}`, `boundary_{It{}, It{}}` — all three are the value-initialised (singular) container
+iterator, written as position `0`; the boundary is empty -/
+def Cyc.default : Cyc := ⟨0, 0, 0⟩
+
+/-- `explicit cyclic_iterator(cyclic_iterator<OtherIterator> const &other)`: `it_(other.get())`, the two boundary iterators converted
+one by one (`iterator` → `const_iterator`: the same positions) -/
+def Cyc.convert (other : Cyc) : Cyc := ⟨other.it, other.first, other.second⟩
+
+/-- `operator=(cyclic_iterator<OtherIterator> const &other)`: overwrites position and boundary of `*this`, returns `*this` -/
+def Cyc.assignFrom (_self other : Cyc) : Cyc := ⟨other.it, other.first, other.second⟩
+
+/-- `std::ptrdiff_t`, the `difference_type` of the container iterators -/
+def ptrdiffTy : IntTy := ⟨true, 64⟩
+
+/-- `advance` with the arithmetic of the real `difference_type`: `size` is computed first (cannot fault), then
+`distance(first, it_) + _diff` (signed overflow is undefined), then `% size` (division by zero is undefined) -/
+def Cyc.advance64 (c : Cyc) (n : Int) : M Cyc :=
+  if ¬ ptrdiffTy.InRange (c.it - c.first + n) then .error .signedOverflow else c.advance n
+
+/-- `iterator::base::operator-=(d)` = `*this += -d`: the negation itself overflows for the minimum -/
+def Cyc.subAssign64 (c : Cyc) (n : Int) : M Cyc :=
+  if ¬ ptrdiffTy.InRange (-n) then .error .signedOverflow else c.advance64 (-n)
+
+/-- a history of iterator operations: `++it` / `it++`, `--it` / `it--`, `it += n`, `it -= n`
+(`iterator/base_impl.hpp`: `operator-=(d)` is `*this += -d`; the post-fix forms change the iterator like the pre-fix ones) -/
 inductive CycOp where
   | inc
   | dec
   | adv (n : Int)
+  | sub (n : Int)
   deriving Repr, DecidableEq
 
 def Cyc.apply (c : Cyc) : CycOp → M Cyc
   | .inc => .ok c.increment
   | .dec => .ok c.decrement
   | .adv n => c.advance n
+  | .sub n => c.advance (-n)
 
 def Cyc.run (c : Cyc) : List CycOp → M Cyc
   | [] => .ok c
@@ -215,6 +292,9 @@ def Spiral.increment (s : Spiral) : Spiral :=
     else s
   { s1 with step := s1.step + 1, cur := s1.cur + s1.dir }   -- ++step_; cur_ += dir_
 
+/-- `spiral_iterator::equal`: `cur_ == other.cur_` — neither `max_dist_` nor the direction / step state is compared -/
+def Spiral.equal (a b : Spiral) : Bool := decide (a.cur = b.cur)
+
 /-- `for (it = begin; it != end; ++it) emit(*it)`; `equal` compares `cur_` only -/
 def spiralLoop (endCur : Pos) : Nat → Spiral → M (List Pos)
   | 0, _ => .error .fuel
@@ -228,6 +308,63 @@ def spiralLoop (endCur : Pos) : Nat → Spiral → M (List Pos)
 /-- `spiral_range(start, dist)`: `begin() = iterator(start, dist)`, `end() = iterator(Pos(start.x - 1, start.y - dist), dist)` -/
 def spiralRange (start : Pos) (dist : Int) (fuel : Nat) : M (List Pos) :=
   spiralLoop ⟨start.x - 1, start.y - dist⟩ fuel (Spiral.init start dist)
+
+/-! ### the spiral in the arithmetic of the coordinate type (`int` / `long`: overflow is undefined behaviour) -/
+
+/-- `a + b` in the type `t` -/
+def addT (t : IntTy) (a b : Int) : M Int :=
+  if t.trapping && !decide (t.InRange (a + b)) then .error .signedOverflow else .ok (t.wrap (a + b))
+
+/-- `spiral_iterator::increment`, every arithmetic operation in the coordinate type, in program order:
+`++cur_dist_`, `cur_.y() - 1`, `++step_`, `cur_.x() += dir_.x()`, `cur_.y() += dir_.y()` -/
+def Spiral.incrementT (t : IntTy) (s : Spiral) : M Spiral :=
+  let turn : M Spiral :=
+    if s.step = s.curDist then
+      let swapped : Pos := ⟨s.dir.y, s.dir.x⟩
+      let dir' : Pos := ⟨swapped.x, -swapped.y⟩
+      if dir' = ⟨-1, 1⟩ then
+        match addT t s.curDist 1 with
+        | .error e => .error e
+        | .ok cd =>
+          match addT t s.cur.y (-1) with
+          | .error e => .error e
+          | .ok y => .ok { s with dir := dir', curDist := cd, cur := ⟨s.cur.x, y⟩, step := 0 }
+      else .ok { s with dir := dir', step := 0 }
+    else .ok s
+  match turn with
+  | .error e => .error e
+  | .ok s1 =>
+    match addT t s1.step 1 with
+    | .error e => .error e
+    | .ok st =>
+      match addT t s1.cur.x s1.dir.x with
+      | .error e => .error e
+      | .ok x =>
+        match addT t s1.cur.y s1.dir.y with
+        | .error e => .error e
+        | .ok y => .ok { s1 with step := st, cur := ⟨x, y⟩ }
+
+def spiralLoopT (t : IntTy) (endCur : Pos) : Nat → Spiral → M (List Pos)
+  | 0, _ => .error .fuel
+  | f + 1, s =>
+    if s.cur = endCur then .ok []
+    else
+      match s.incrementT t with
+      | .error e => .error e
+      | .ok s' =>
+        match spiralLoopT t endCur f s' with
+        | .error e => .error e
+        | .ok r => .ok (s.cur :: r)
+
+/-- `for (pos p : make_spiral_range(start, dist))`: `end()` = `Pos(start_.x() - 1, start_.y() - dist_)` is computed
+(in the coordinate type) before the loop starts -/
+def spiralRangeT (t : IntTy) (start : Pos) (dist : Int) (fuel : Nat) : M (List Pos) :=
+  match addT t start.x (-1) with
+  | .error e => .error e
+  | .ok ex =>
+    match addT t start.y (-dist) with
+    | .error e => .error e
+    | .ok ey => spiralLoopT t ⟨ex, ey⟩ fuel (Spiral.init start dist)
 
 /-- `neumann_neighbors(p)` in the order of the returned array -/
 def neumann (t : IntTy) (p : Pos) : M (List Pos) :=
@@ -260,6 +397,16 @@ def iterMakeRange (b e : Nat) : IterRange := ⟨b, e⟩
 /-- `adapt_range(c)` = `range{range::begin(c), range::end(c)}` -/
 def adaptRange {α : Type} (c : List α) : IterRange := ⟨0, c.length⟩
 
+/-- `range::empty` / `range::singular` of an iterator range; `range::from_pair(p)` = `range{p.first, p.second}` -/
+def IterRange.empty (r : IterRange) : Bool := decide (r.begin_ = r.end_)
+def IterRange.singular (r : IterRange) : Bool := !r.empty && decide (r.begin_ + 1 = r.end_)
+def iterFromPair (p : Nat × Nat) : IterRange := ⟨p.1, p.2⟩
+
+/-- `iterator/range_comparison.hpp`: `l.begin() == r.begin() && l.end() == r.end()` -/
+def IterRange.equal (l r : IterRange) : Bool := decide (l.begin_ = r.begin_) && decide (l.end_ = r.end_)
+/-- `!(l == r)` -/
+def IterRange.notEqual (l r : IterRange) : Bool := !IterRange.equal l r
+
 /-- `for (it = r.begin(); it != r.end(); ++it) emit(*it)` on the container `c` -/
 def iterLoop {α : Type} (c : List α) (end_ : Nat) : Nat → Nat → M (List α)
   | 0, _ => .error .fuel
@@ -281,5 +428,9 @@ def IterRange.size (r : IterRange) : Int := (IntTy.mk false 64).wrap ((r.end_ : 
 /-- `math::int_range_count<Count>`: `mpl::list::interval<0, Count>` = the constants `0 + Values…` of
 `std::make_integer_sequence<size_type, Count - 0>` -/
 def mathIntRangeCount (count : Nat) : List Nat := (List.range (count - 0)).map (0 + ·)
+
+/-- `math::int_range<Start, End>` = `mpl::list::interval<Start, End>` (requires `Start ≤ End`): `Begin + Values…` over
+`std::make_integer_sequence<_, End - Begin>` -/
+def mathIntRange (start end_ : Nat) : List Nat := (List.range (end_ - start)).map (start + ·)
 
 end Fcppt.C18
